@@ -8,7 +8,7 @@
    at every return, no method other than the entry runs off its end, and the entry ends with
    the prescribed depth.  Programs come from the real compiler's bytes (env BCS: ndjson of
    [id, bytes, enddepth]) read by the independent decoder.                               *)
-EXTENDS FMLBytecode, TLC, Json, IOUtils
+EXTENDS FMLStackDepth, TLC, Json, IOUtils
 VARIABLES t, m, pc, d, verdict
 
 ASSUME TLCSet(1, ndJsonDeserialize(IOEnv.BCS))
@@ -16,40 +16,6 @@ Rec == TLCGet(1)
 ASSUME TLCSet(2, [i \in 1..Len(Rec) |-> Decode(Rec[i].bytes)])
 Prog(i) == TLCGet(2)[i]
 
-Code(P, mi) == CAt(P, mi).code
-NSlots(P, ci) == Cardinality({j \in 1..Len(CAt(P, ci).members) : IsKind(P, CAt(P, ci).members[j], {"slot"})})
-\* <<operands required on the stack, net change>>
-Effect(P, ins) ==
-  LET op == ins.op IN
-  CASE op = OP_LABEL -> <<0, 0>>   [] op = OP_LIT -> <<0, 1>>     [] op = OP_PRINT -> <<ins.n, 1 - ins.n>>
-    [] op = OP_ARRAY -> <<2, -1>>  [] op = OP_OBJECT -> LET k == IF IsKind(P, ins.a, {"class"}) THEN NSlots(P, ins.a) + 1 ELSE 1 IN <<k, 1 - k>>
-    [] op = OP_GETFLD -> <<1, 0>>  [] op = OP_SETFLD -> <<2, -1>>
-    [] op = OP_CALLM -> <<ins.n, 1 - ins.n>>  [] op = OP_CALLF -> <<ins.n, 1 - ins.n>>
-    [] op = OP_SETLOC -> <<1, 0>>  [] op = OP_GETLOC -> <<0, 1>>  [] op = OP_SETGLB -> <<1, 0>>  [] op = OP_GETGLB -> <<0, 1>>
-    [] op = OP_BRANCH -> <<1, -1>> [] op = OP_JUMP -> <<0, 0>>    [] op = OP_RETURN -> <<1, 0>>   [] op = OP_DROP -> <<1, -1>>
-\* pc of the label a jump in method mi refers to (0 if it is not defined in this method)
-Target(P, mi, a) ==
-  IF ~IsKind(P, a, {"str"}) THEN 0 ELSE
-  LET hits == {q \in LabelSitesOf(P, mi) : IsKind(P, Code(P, mi)[q].a, {"str"}) /\ StrOf(P, Code(P, mi)[q].a) = StrOf(P, a)} IN
-  IF hits = {} THEN 0 ELSE CHOOSE q \in hits : \A q2 \in hits : q <= q2
-Succs(P, mi, p) ==
-  LET ins == Code(P, mi)[p] IN
-  CASE ins.op = OP_RETURN -> {}
-    [] ins.op = OP_JUMP   -> {Target(P, mi, ins.a)}
-    [] ins.op = OP_BRANCH -> {Target(P, mi, ins.a), p + 1}
-    [] OTHER -> {p + 1}
-
-\* reference dataflow: first depth that reaches each pc along a worklist traversal (0 = unreached is encoded as -1)
-RECURSIVE Flow(_,_,_,_)
-Flow(P, mi, work, map) ==
-  IF work = {} THEN map ELSE
-  LET w == CHOOSE x \in work : TRUE
-      p == w[1]  dd == w[2] IN
-  IF p < 1 \/ p > Len(Code(P, mi)) \/ map[p] # -1 THEN Flow(P, mi, work \ {w}, map)
-  ELSE LET eff == Effect(P, Code(P, mi)[p])
-           nd == dd + eff[2] IN
-       Flow(P, mi, (work \ {w}) \cup {<<q, nd>> : q \in Succs(P, mi, p)}, [map EXCEPT ![p] = dd])
-DepthMap(P, mi) == Flow(P, mi, {<<1, 0>>}, [p \in 1..Len(Code(P, mi)) |-> -1])
 ASSUME TLCSet(3, [i \in 1..Len(Rec) |-> IF Prog(i).ok THEN [mi \in MethodIdxs(Prog(i)) |-> DepthMap(Prog(i), mi)] ELSE <<>>])
 Depths(i, mi) == TLCGet(3)[i][mi]
 ASSUME TLCSet(4, [i \in 1..Len(Rec) |-> IF ~Prog(i).ok THEN "undecodable" ELSE IF Prog(i).rest # 0 THEN "trailing-bytes" ELSE WhyNotWF(Prog(i))])
